@@ -1,10 +1,17 @@
 package main
 
 import (
+	"bytes"
 	"encoding/json"
 	"fmt"
+	"os"
+	"os/exec"
+	"runtime/debug"
+	"strconv"
 	"strings"
+	"time"
 
+	"github.com/nlnwa/whatwg-url/canonicalizer"
 	"github.com/nlnwa/whatwg-url/url"
 )
 
@@ -27,6 +34,36 @@ func (r *Rng) hostile() string {
 	}
 	return r.anyInput()
 }
+
+// defSchemeChild: profiles built with arbitrary default-scheme strings (valid or not), run in a process of its own with a small
+// stack limit: a call that does not return (unbounded recursion) ends the child with a fatal error instead of eating memory.
+// One line "ok <k>" per finished call.
+func defSchemeChild(idx string) {
+	debug.SetMaxStack(1 << 20)
+	k, _ := strconv.Atoi(idx)
+	ds := defSchemeValues[k]
+	p := canonicalizer.New(canonicalizer.WithDefaultScheme(ds), canonicalizer.WithRemoveFragment())
+	for i, in := range defSchemeInputs {
+		func() {
+			defer func() {
+				if r := recover(); r != nil {
+					fmt.Printf("panic %d %v\n", i, r)
+				}
+			}()
+			u, err := p.Parse(in)
+			if u == nil && err == nil {
+				fmt.Printf("nilnil %d\n", i)
+				return
+			}
+			_, _ = p.ParseRef(in, "x/y?z")
+			fmt.Printf("ok %d\n", i)
+		}()
+	}
+	fmt.Println("done")
+}
+
+var defSchemeValues = []string{"http", "my_app", "1x", " http", "//", "", ":", "a b", "é", "x:y", "\xff", "file", "http://h/", "?", "#", "HTTP", "a+b.c-d"}
+var defSchemeInputs = []string{"example.com/index.html", "x", "", "//h/p", "/p", "?q", "#f", "\\h", "a:b", "http://h/", "1.2.3.4", "[::1]", " y ", "%", "é/ü"}
 
 func init() {
 	props["C02"] = &propDef{
@@ -141,6 +178,47 @@ func init() {
 					}
 				})
 			}
+			// profiles built with arbitrary default-scheme strings, each in a process of its own (small stack limit, time limit):
+			// a call that never returns is observed as the child's death, not as memory exhaustion of the harness
+			for k := range defSchemeValues {
+				cmd := exec.Command(os.Args[0], "defscheme-child", strconv.Itoa(k))
+				var out bytes.Buffer
+				cmd.Stdout, cmd.Stderr = &out, &out
+				done := make(chan error, 1)
+				if err := cmd.Start(); err != nil {
+					c.Report(Finding{Class: "obligation", What: "cannot start the default-scheme child: " + err.Error(), Case: Case{Kind: "cparse", Family: "default-scheme-values"}})
+					break
+				}
+				go func() { done <- cmd.Wait() }()
+				var err error
+				select {
+				case err = <-done:
+				case <-time.After(20 * time.Second):
+					cmd.Process.Kill()
+					err = fmt.Errorf("no answer within 20 s")
+				}
+				s := out.String()
+				c.Count("defscheme\x00"+defSchemeValues[k], true, "default-scheme-values")
+				if err != nil || !strings.Contains(s, "done\n") || strings.Contains(s, "panic ") || strings.Contains(s, "nilnil ") {
+					last := -1
+					for _, l := range strings.Split(s, "\n") {
+						var n int
+						if _, e := fmt.Sscanf(l, "ok %d", &n); e == nil {
+							last = n
+						}
+					}
+					in := "?"
+					if last+1 < len(defSchemeInputs) {
+						in = defSchemeInputs[last+1]
+					}
+					msg := tail(s, 600)
+					if i := strings.Index(s, "fatal error:"); i >= 0 {
+						msg = strings.SplitN(s[i:], "\n", 2)[0]
+					}
+					c.Report(Finding{Class: "violation", What: fmt.Sprintf("a profile built with WithDefaultScheme(%q) did not return normally on input %q: %v %s", defSchemeValues[k], in, err, msg),
+						Case: Case{Kind: "cparse", Cfg: "defaultScheme=" + defSchemeValues[k], Input: in, Family: "default-scheme-values", Index: k}})
+				}
+			}
 			// profiles
 			c.Pool.Run(15000*c.Scale, func(d *Driver, i int) {
 				r := rng.Fork(300000 + i)
@@ -176,6 +254,12 @@ func init() {
 			rng := NewRng(c.Seed)
 			// operation histories against the model (whose sp_* functions are the list semantics)
 			famHist(c, defaultCfg, 15000*c.Scale, 10, "ppppppq", false, allButVerrs, "searchparams", nil)
+			// the same operations under the options that touch the codec (raw bytes kept, '=' skipped, other encode sets, Latin-1)
+			for _, n := range []string{"acceptInvalid", "skipEq", "queryC+squeryA", "latin1", "acceptInvalid+skipEq+specialAdd"} {
+				if cfg := cfgFromDesc(n); cfg != nil {
+					famHist(c, cfg, 2500*c.Scale, 8, "ppppppqs", false, allButVerrs, "searchparams:"+n, nil)
+				}
+			}
 			// long lists with repeated names: sorting (library sorts switch algorithm with the length)
 			c.Pool.Run(1500*c.Scale, func(d *Driver, i int) {
 				r := rng.Fork(7000000 + i)
